@@ -14,7 +14,7 @@ EXTENDS Naturals, Sequences, TLC
 
 MonInit == [viol |-> <<>>, sc |-> "", isMaster |-> FALSE, selfAddr |-> FALSE,
             reset |-> FALSE, lastFcb |-> "none"]   \* lastFcb: fcb of the last delivered confirmed-data frame
-V(m, reason, l, ctx) == [m EXCEPT !.viol = Append(@, [prop |-> "C07", reason |-> reason, line |-> l, sc |-> m.sc, ctx |-> ctx])]
+V(m, reason, l, ctx) == [m EXCEPT !.viol = IF Len(@) >= 300 THEN @ ELSE Append(@, [prop |-> "C07", reason |-> reason, line |-> l, sc |-> m.sc, ctx |-> ctx])]
 
 Addressed(m, h) ==
     \/ h.dst = "OWN"
